@@ -14,6 +14,7 @@ import ast
 
 from sa import mutate as M
 from sa.cfg import CFG
+from sa import pattern as PT
 from sa.ctx import Ctx
 from sa.loader import AnalysisError, FuncInfo, ModuleInfo, call_name, norm, own_nodes, parent
 from sa.report import Report
@@ -602,6 +603,41 @@ def predicate_hf(ctx: Ctx, rep: Report, rule: str, only_module: str | None) -> N
                 rep.ob(rule, f"{fi.qualname}:hf", a1 in ("None", "sha256", "hf", "self._hf"), fi.where(c), f"arithmetic-only delegation; asked with {a1}")
 
 
+def rule_verification_failure_class(ctx: Ctx, rep: Report) -> None:
+    """C04.verification_class: the delegated verify answers a bool, which the
+    callers turn into BTClibRuntimeError("signature verification failed"). The
+    Python arm has the arithmetic, and must reach the same class for the same
+    signature on *every* failing path -- in particular for a K at infinity,
+    which is a failed verification (BIP340 "Fail if is_infinite(K)", SEC 1
+    4.1.4 step 5) and not a malformed input: it is refused explicitly, in that
+    class, before any coordinate of K is taken (a coordinate helper asked
+    about infinity raises BTClibValueError)."""
+    rule = "C04.verification_class"
+    for q in ("btclib.ecc.ssa._assert_as_valid_", "btclib.ecc.dsa._assert_as_valid_"):
+        fi = ctx.func(q)
+        g = ctx.cfg(fi)
+        m: dict[str, str] = {}
+        k = PT.find(fi.node, "$K = _jac_double_mult($$a, $$b, $$c, $$d, ec, $$f)", m)
+        if k is None:
+            rep.unknown(rule, q, fi.where(), "K is not computed by _jac_double_mult in the shape this rule reads")
+            continue
+        K = m["K"]
+        inf = [n for t, pol, n in ctx.refusals(fi) if pol and (norm(t) == f"{K}[2] == 0" or norm(t) == f"not {K}[2]") or (not pol and norm(t) == f"{K}[2]")]
+        cls_ok = False
+        for n in inf:
+            st = n.stmt
+            rs = [x for x in ast.walk(st) if isinstance(x, ast.Raise)] if st is not None else []
+            cls_ok |= any("BTClibRuntimeError" in str(norm(x)) for x in rs)
+        uses = [c for c in own_nodes(fi.node) if isinstance(c, ast.Call) and call_name(c) in ("y_aff_from_jac_var", "x_aff_from_jac_var", "aff_from_jac_var")
+                and any(isinstance(a, ast.Name) and a.id == K for a in c.args)]
+        early = [u for u in uses if not inf or g.path_avoiding(g.nodes_containing(u), [n.id for n in inf]) is not None]
+        rep.ob(rule, f"{q}:infinite_K", bool(inf) and cls_ok and not early, fi.where(inf[0].ast if inf else k),
+               "an infinite K is a failed verification, raised as BTClibRuntimeError before any coordinate is taken" if inf and cls_ok and not early else
+               ("K at infinity is not refused explicitly" if not inf else "K at infinity is refused in another class than the delegated arm's" if not cls_ok else
+                f"`{norm(early[0])}` is reached with a K that may be infinite: the coordinate helper's BTClibValueError leaves where the delegated arm raises BTClibRuntimeError"))
+    rep.floor(rule, 2)
+
+
 def rule_predicate_args(ctx: Ctx, rep: Report) -> None:
     """C04.predicate_args: the predicate is asked with the hash function wherever
     one is in scope, and a class that keeps a token decides its arm once."""
@@ -638,9 +674,12 @@ RULES = [
     ("C04.both_arms", rule_both_arms),
     ("C04.expressible", rule_expressible),
     ("C04.predicate_args", rule_predicate_args),
+    ("C04.verification_class", rule_verification_failure_class),
 ]
 
 CONTROLS = [
+    {"rule": "C04.verification_class", "name": "an infinite K is asked for its y (F15)", "module": "btclib.ecc.ssa",
+     "edit": lambda ctx: M.drop_if(ctx, "btclib.ecc.ssa._assert_as_valid_", lambda n: "KJ[2] == 0" in norm(n.test))},
     {"rule": "C04.single_door", "name": "dh imports the bindings directly", "module": "btclib.ecc.dh",
      "edit": lambda ctx: ctx.module("btclib.ecc.dh").source + "\nfrom btclib_secp256k1 import keys as _k\n"},
     {"rule": "C04.flag_owner", "name": "taproot caches the decision at import", "module": "btclib.script.taproot",
